@@ -246,7 +246,7 @@ def runCase (c : Case) : String :=
   | .error e =>
     let same := match g.error with
       | some msg => classify msg == some e
-      | none => (e == .unknownOption || e == .lateParse) && !g.entered && g.rc == some (-1)
+      | none => e == .unknownOption && !g.entered && g.rc == some (-1)
     if same && g.complete then s!"case {c.id} accept error:{errName e} ; {monS}"
     else s!"case {c.id} reject 0 [model error:{errName e} ; impl {gs}] ; {monS}"
   | .ok r =>
